@@ -60,6 +60,8 @@ def _d(x):
         return ('dict',) + tuple((_d(a), _d(b)) for a, b in x.items())
     if isinstance(x, (int, float, str, bytes, bool, type(None))):
         return x
+    if callable(x) and not isinstance(x, type):
+        return 'callable'        # plain and compiled functions have different type names
     return type(x).__name__
 
 
